@@ -1,53 +1,81 @@
 """C04 — models: theorems (Props/C04.lean) + correspondence K-C04 (harness/c04.cpp vs
-Model/Models.lean, Model/Models2.lean through drv_c04): dense layers with every element-wise activation,
-concatenations of any length, normalizer/softmax rows, Normalizer, Classifier, pooling, resize, convolution,
-RBF, kernel expansion, ensemble, CMAC."""
+Model/Models.lean, Model/Models2.lean, Model/Models3.lean through drv_c04): dense layers with every element-wise activation
+(dense and sparse inputs), concatenations of any length and nesting, normalizer/softmax rows, Normalizer, Classifier,
+KernelClassifier, pooling, resize, convolution, RBF, kernel expansion, ensemble, CMAC, one-versus-one, CARTree / RFClassifier,
+clustering models, dropout; object histories (setStructure, State reuse, copies) and empty batches."""
 import os, re
 from vlib import core
 
 TRUST = ("Lean 4.33 kernel; axioms at most propext/Classical.choice/Quot.sound (audited per run); "
-         "hand-written models Model/Models.lean, Model/Models2.lean tied to the C++ by the correspondence harness (differential, generator-bounded); ")
+         "hand-written models Model/Models.lean, Model/Models2.lean, Model/Models3.lean tied to the C++ by the correspondence harness (differential, generator-bounded); ")
 MANIFEST = dict(
   text=("Theorems (Props/C04.lean, all for arbitrary shapes / batch sizes / parameter values). "
         "(1) batch = row-wise single evaluation, exact arithmetic: dense layers with every element-wise activation, ConcatenatedModel chains of any "
-        "length and any layer kinds (row i of the output depends on row i of the input only, and equals the evaluation of the one-row batch), "
-        "Normalizer, Classifier<LinearModel> (label of row i = decision on the single evaluation), max pooling, linear gathers (ResizeLayer), RBFLayer, "
-        "KernelExpansion over any kernel function, weighted-mean and voting Ensemble over members that satisfy batch = single, CMAC, Conv2DModel. "
-        "(2) parameterVector/setParameterVector round trip with the reported count: dense layer, chain (optimised and frozen layers), Normalizer, "
-        "KernelExpansion, RBFLayer (over the reals, log/exp encoding of the widths), CMAC, Conv2DModel. "
+        "length and any layer kinds (row i of the output depends on row i of the input only, and equals the evaluation of the one-row batch), nested "
+        "ConcatenatedModels of any depth (they evaluate like their flat chain), evaluation independent of State recording (the State-less fold = "
+        "the recording loop, chain_eval_state_independent), Normalizer, Classifier<LinearModel> and KernelClassifier (label of row i = decision on the "
+        "single evaluation), max pooling, linear gathers (ResizeLayer), RBFLayer, KernelExpansion over any kernel function, weighted-mean and voting "
+        "Ensemble over members that satisfy batch = single, CMAC, Conv2DModel, OneVersusOneClassifier, CARTree, soft / hard clustering models, DropoutLayer for a given mask. "
+        "(2) parameterVector/setParameterVector round trip with the reported count: dense layer, chain (optimised and frozen layers), NESTED "
+        "ConcatenatedModels with frozen sub-models (the recursive slicing of the C++ is the slicing of the flat chain: nested_params_length, "
+        "nested_params_setParams, nested_frozen_child), Normalizer, KernelExpansion, RBFLayer (over the reals, log/exp encoding of the widths), CMAC, "
+        "Conv2DModel, OneVersusOneClassifier (the vectors of the binary classifiers in order), Centroids. "
         "(3) derivatives over the reals (HasDerivAt of the coefficient-weighted output sum): dense layer weight/offset/input derivatives for every "
         "activation (rectifier/fast sigmoid away from the kink); softmax and normalizer Jacobian-vector products; "
         "the executable backward pass Chain.backward of a ConcatenatedModel of any length made of dense, element-wise neuron, softmax and normalizer "
         "layers, optimised or frozen: its input-coefficient matrix is the input derivative and the entry of its gradient vector at the position of "
         "W[k][j] / b[k] of any optimised dense layer is the partial derivative w.r.t. that parameter (induction over the chain, "
-        "chain_input/weight/offset_derivative_correct, chain_curve_hasDerivAt), next to the abstract Frechet chain rule concat_chain_rule; "
-        "max-pooling input derivative (no tie in the patch of the pixel); input derivative of any linear gather (ResizeLayer taps); RBFLayer centre "
+        "chain_input/weight/offset_derivative_correct, chain_curve_hasDerivAt), next to the abstract Frechet chain rule concat_chain_rule; the recursive "
+        "backward pass of NESTED models returns the gradient vector and input derivative of the flat chain (nested_backward_eq_flat, "
+        "nested_input_derivative_correct, nested_frozen_backward); combined = separate: weightedDerivatives = (weightedParameterDerivative, "
+        "weightedInputDerivative) for every chain (chain_combined_eq_separate); "
+        "max-pooling input derivative (no tie in the patch of the pixel) and, AT TIES, the statement of what the code does: the whole coefficient goes to "
+        "the first maximal pixel in scan order, which is a subgradient of the weighted patch maximum for a non-negative coefficient "
+        "(pooling_tie_subgradient, pooling_tie_first); input derivative of any linear gather (ResizeLayer taps), the 16 spline weights of every output "
+        "pixel sum to 1 and every tap lies inside the image (resize_weights_sum_one, resize_taps_in_range); RBFLayer centre "
         "and log-width gradients at their positions in the gradient vector; CMAC parameter derivative; Conv2DModel (both paddings, every activation away "
-        "from its kink) input derivative and filter/offset gradients at their positions in the gradient vector. "
+        "from its kink) input derivative and filter/offset gradients at their positions in the gradient vector, and the IMPLEMENTATION of "
+        "Conv2DModel::eval (patch matrix of im2mat / im2mat_pad with its three branches, gemm with the transposed filter matrix, offsets on the reshaped "
+        "output, activation) equals that defining sum for every shape, both paddings, filters larger than the image included (conv2d_im2mat_entry, "
+        "conv2d_impl_eq_spec, conv2d_zeropad_output_shape). "
         "(4) Classifier: argmax returns an index of a maximal entry and the first such (and is characterised by that), with bias the first maximum of "
         "z + bias, a single output is thresholded at 0; max pooling returns the maximum of its patch, attained at the pixel the derivative selects; "
         "the votes of a voting ensemble sum to 1; CMAC tile hashing: with all tile numbers below the tile count every accessed parameter position is inside "
-        "the parameter vector and determines (output, tiling, tile numbers) uniquely. "
+        "the parameter vector and determines (output, tiling, tile numbers) uniquely; OneVersusOneClassifier: the decision is a class with the most votes "
+        "and the first such (ovo_decision_spec); CARTree: for every tree produced by createRoot / transformInternalNode / transformLeafNode the walk of "
+        "findLeaf ends in a leaf inside the node array within numberOfNodes steps (cart_walk_reaches_leaf); clustering: the hard label is the first "
+        "cluster of maximal soft membership, the memberships sum to 1. "
         "Correspondence (harness/c04.cpp on the real classes vs the same Lean definitions, corpus first): exact comparison on dyadic data for "
-        "linear/rectifier layers and chains, Normalizer, Classifier, arg_max, PoolingLayer, KernelExpansion with LinearKernel, CMACMap, Conv2DModel "
-        "(linear/rectifier, both paddings, incl. both derivatives); bit-for-bit outputs for tanh/logistic/fast-sigmoid/softmax/normalizer layers, "
-        "ResizeLayer (spline taps incl. derivative), Ensemble (mean and vote); 1e-12 relative tolerance for gradient fields behind BLAS and for "
-        "RBFLayer / Gaussian KernelExpansion / Conv2DModel(tanh, logistic) outputs. In-harness oracle on the real code: batch rows == single "
-        "evaluation, one-row batches, state vs stateless, combined vs separate derivative calls, derivative results independent of the previous "
-        "content of the result object, parameter round trip and count, central finite differences for every advertised derivative."),
+        "linear/rectifier layers and chains, nested ConcatenatedModels (built as real nested objects, compared with the recursive Net model), "
+        "LinearModel on sparse inputs (CompressedRealVector; also against the dense model in the harness), Normalizer, Classifier, KernelClassifier, "
+        "arg_max, PoolingLayer, KernelExpansion with LinearKernel, CMACMap, Conv2DModel (linear/rectifier, both paddings, zero padding with filters "
+        "larger than the image, incl. both derivatives), OneVersusOneClassifier, CARTree<unsigned int>; bit-for-bit outputs for "
+        "tanh/logistic/fast-sigmoid/softmax/normalizer layers, ResizeLayer (spline taps incl. derivative), Ensemble (mean and vote), RFClassifier "
+        "(weighted vote of CARTrees); 1e-12 relative tolerance for gradient fields behind BLAS and for "
+        "RBFLayer / Gaussian KernelExpansion / Conv2DModel(tanh, logistic) / Centroids soft memberships. In-harness oracle on the real code: batch rows == "
+        "single evaluation, one-row batches, EMPTY batches (size 0 for every model), state vs stateless, a State that has recorded another batch "
+        "before, combined vs separate derivative calls, derivative results independent of the previous content of the result object, parameter round "
+        "trip and count, central finite differences for every advertised derivative; OBJECT HISTORIES (every second case): the object is built with "
+        "another structure, evaluated, re-configured with setStructure and must then behave like a fresh object (the model), copies evaluate alike and "
+        "do not share parameters, assignment over an object with other parameters; DropoutLayer (random, oracle only, private generator re-seeded): "
+        "state/stateless/row-by-row evaluation draw the same mask, out = mask*x, input derivative = mask*coefficients, p = 0 and p = 1."),
   note=TRUST + "PARTIAL. Proved: the items (1)-(4) above about the executable models. Only exercised by the correspondence (no theorem): "
-       "the im2mat/gemm/reorder implementation of Conv2DModel (the model is the defining sum over filter taps), the spline taps of ResizeLayer (the derivative "
-       "theorem holds for arbitrary taps), voting ensembles' batch = single, KernelExpansion with the Gaussian kernel (theorem is for an arbitrary kernel "
-       "function), the floating-point tile numbers of CMAC (the theorems take the cast `toNat` as an arbitrary function). Not modelled: sparse inputs, DropoutLayer (random), "
-       "OpenCL back ends, Padding::RepeatBorder, floating-point rounding. Findings on the real code (modelled as repaired, inputs in corpus/C04, "
-       "findings_proposed/C04.md): F-C04-1 Classifier single evaluation ignores the bias, F-C04-2 PoolingLayer input derivative accumulates into "
-       "the result object (F-C04-5: parameter-less NeuronLayer / ResizeLayer do not resize the gradient to 0), F-C04-3 voting Ensemble of single-output classifiers writes out of bounds, F-C04-4 Conv2DModel input derivative wrong "
-       "(backprop filter layout; even filter sizes with zero padding).",
-  technique="Lean 4 proofs (exact algebra over Rat, HasDerivAt/chain rule over Real, induction over the layer chain) + exact / bit-exact differential correspondence with the C++ models",
+       "the backward implementation of Conv2DModel (reorder NHWC/CHWN + conv2d for the filter gradient, backprop filters + padded conv2d for the input "
+       "derivative; the theorems are about the defining sums, the forward implementation IS proved), the loop nest of im2mat as such (its index map is "
+       "the model), the floating-point tile numbers of CMAC (the theorems take the cast `toNat` as an arbitrary function), the spline base points "
+       "(`floor`, the cast; the tap theorems hold for arbitrary ones), DropoutLayer (theorems for a given mask, dropout_input_derivative_correct; the mask is random: harness oracle only), RFClassifier beyond its vote, sparse inputs "
+       "(modelled by the dense layer). Not modelled: OpenCL back ends, Padding::RepeatBorder (not implemented by the library: PoolingLayer rejects every "
+       "padding but Valid, Conv2DModel treats it as ZeroPad), floating-point rounding, NearestNeighborModel (C17), serialisation (C10). What the code does "
+       "with a State recorded for a different batch and not refreshed: the derivative calls read the stale intermediates (no check in release builds) - a "
+       "caller error, not modelled; re-using a State object for a new eval is covered. "
+       "Findings on the real code: F-C04-1..5 fixed in /repo; open (probed first, corpus/C04, findings_proposed/C04.md, patches validated with "
+       "VERIF_REPO): F-C04-6 KernelExpansion::setStructure keeps the offset vector when re-configured without offset (wrong parameter count, "
+       "setParameterVector throws), F-C04-7 CARTree::eval (and RFClassifier) on an empty batch reads row 0.",
+  technique="Lean 4 proofs (exact algebra over Rat, HasDerivAt/chain rule over Real, induction over the layer chain and over nested models, refinement of the im2mat/gemm implementation) + exact / bit-exact differential correspondence with the C++ models incl. object histories",
   design="§6 C04")
 FINISH = dict(level="proof",
-              rule="cases = (layer kind, activation(s), shapes, dyadic parameters/inputs/coefficients); distinct = distinct op text; "
-                   "non-trivial = batch size >= 2 and at least 2 outputs")
+              rule="cases = (model class, activation(s), shapes, nesting, object history, dyadic parameters/inputs/coefficients); distinct = distinct op text; "
+                   "non-trivial = batch size >= 2")
 LAKE_TARGETS = ["SharkVerif.Props.C04", "drv_c04"]
 # ResizeLayer evaluates its images in an OpenMP loop: two threads, no spinning (the machine is shared; schedules are C20's topic)
 ENV = {"OMP_NUM_THREADS": "2", "OMP_WAIT_POLICY": "PASSIVE"}
@@ -56,7 +84,12 @@ EXACT_ACTS = ["linear", "rectifier"]
 
 
 def build(ctx):
-    return ctx.harness("c04", ["c04.cpp"], repo_sources=["src/Models/RBFLayer.cpp", "src/Models/CMAC.cpp", "src/Core/Random.cpp"])
+    return ctx.harness("c04", ["c04.cpp"], repo_sources=["src/Models/RBFLayer.cpp", "src/Models/CMAC.cpp", "src/Models/Centroids.cpp", "src/Core/Random.cpp"])
+
+
+def bsz(r, opts):
+    """batch size: one case in ten has the empty batch"""
+    return 0 if r.chance(1, 10) else r.choice(opts)
 
 
 def dy(r, lo, hi, fracbits):
@@ -69,16 +102,28 @@ def vec(r, n, lo=-3, hi=3, fb=2):
     return " ".join(dy(r, lo, hi, fb) for _ in range(n))
 
 
+def scaled(tok, sh):
+    """the dyadic token times 2^sh"""
+    a, _, k = tok.partition("/")
+    a, k = int(a), int(k or 0)
+    if sh >= 0: a <<= sh
+    else: k -= sh
+    return f"{a}/{k}" if k else f"{a}"
+
+
 def gen_dense(r, exact):
     act = r.choice(EXACT_ACTS if exact else ACTS)
-    hb = r.below(2); nIn = r.range(1, 4); nOut = r.range(1, 4); B = r.choice([1, 1, 2, 3, 5])
+    hb = r.below(2); nIn = r.range(1, 4); nOut = r.range(1, 4); B = bsz(r, [1, 1, 2, 3, 5])
     np_ = nOut * nIn + (nOut if hb else 0)
-    return f"dense {act} {hb} {nIn} {nOut} {B} | {vec(r, np_)} | {vec(r, B * nIn)} | {vec(r, B * nOut)}"
+    # extreme magnitudes: the whole input batch times 2^20 (saturated activations) or 2^-30, or an all-zero batch
+    sh = r.choice([0, 0, 0, 0, 0, 20, -30, None])
+    xs = " ".join("0" if sh is None else scaled(t, sh) for t in vec(r, B * nIn).split())
+    return f"dense {act} {hb} {nIn} {nOut} {B} | {vec(r, np_)} | {xs} | {vec(r, B * nOut)}"
 
 
 def gen_concat(r, exact):
     a1 = r.choice(EXACT_ACTS if exact else ACTS); a2 = r.choice(EXACT_ACTS if exact else ACTS)
-    h1 = r.below(2); h2 = r.below(2); nIn = r.range(1, 3); nHid = r.range(1, 3); nOut = r.range(1, 3); B = r.choice([1, 2, 4])
+    h1 = r.below(2); h2 = r.below(2); nIn = r.range(1, 3); nHid = r.range(1, 3); nOut = r.range(1, 3); B = bsz(r, [1, 2, 4])
     np_ = nHid * nIn + (nHid if h1 else 0) + nOut * nHid + (nOut if h2 else 0)
     return f"concat {a1} {h1} {a2} {h2} {nIn} {nHid} {nOut} {B} | {vec(r, np_, -2, 2, 1)} | {vec(r, B * nIn, -2, 2, 1)} | {vec(r, B * nOut, -2, 2, 1)}"
 
@@ -86,7 +131,7 @@ def gen_concat(r, exact):
 def gen_chain(r, exact):
     """ConcatenatedModel of 2-4 layers: dense / element-wise neuron / softmax / normalizer layers, each optimised or frozen"""
     acts = EXACT_ACTS if exact else ACTS
-    B = r.choice([1, 2, 3]); nIn = r.range(1, 3)
+    B = bsz(r, [1, 2, 3]); nIn = r.range(1, 3)
     specs, n, npar = [], nIn, 0
     L = r.range(2, 4)
     for li in range(L):
@@ -104,20 +149,20 @@ def gen_chain(r, exact):
 
 
 def gen_rowact(r):
-    kind = r.choice(["normalizer", "softmax"]); n = r.range(1, 5); B = r.range(1, 4)
+    kind = r.choice(["normalizer", "softmax"]); n = r.range(1, 5); B = bsz(r, [1, 2, 3, 4])
     lo = 1 if kind == "normalizer" else -3      # normalizer rows must not sum to 0
     return f"rowact {kind} {n} {B} | {vec(r, n * B, lo, 4, 2)} | {vec(r, n * B)}"
 
 
 # ---------------------------------------------------------------- further model types
 def gen_normalizer(r):
-    hb = r.below(2); n = r.range(1, 5); B = r.choice([1, 2, 3, 5])
+    hb = r.below(2); n = r.range(1, 5); B = bsz(r, [1, 2, 3, 5])
     return f"normalizer {hb} {n} {B} | {vec(r, n + (n if hb else 0))} | {vec(r, B * n)}"
 
 
 def gen_classifier(r, probe):
     """Classifier<LinearModel>: arg-max with ties (small integers), single thresholded output, optional bias"""
-    nIn = r.range(1, 3); nOut = r.range(1, 4); hb = r.below(2); hasBias = r.below(2); B = r.choice([1, 2, 3, 4])
+    nIn = r.range(1, 3); nOut = r.range(1, 4); hb = r.below(2); hasBias = r.below(2); B = bsz(r, [1, 2, 3, 4])
     ints = r.chance(1, 2)
     fb = 0 if ints else 2
     np_ = nOut * nIn + (nOut if hb else 0)
@@ -138,7 +183,7 @@ def _perm(r, n):
 
 
 def gen_pool(r, probe):
-    h = r.range(1, 5); w = r.range(1, 5); d = r.range(1, 2); ph = r.range(1, min(h, 3)); pw = r.range(1, min(w, 3)); B = r.choice([1, 2, 3])
+    h = r.range(1, 5); w = r.range(1, 5); d = r.range(1, 2); ph = r.range(1, min(h, 3)); pw = r.range(1, min(w, 3)); B = bsz(r, [1, 2, 3])
     nIn = h * w * d; nOut = (h // ph) * (w // pw) * d
     distinct = r.chance(1, 2)
     if distinct:      # no ties anywhere: the finite-difference oracle applies
@@ -149,18 +194,18 @@ def gen_pool(r, probe):
 
 
 def gen_resize(r):
-    h = r.range(1, 4); w = r.range(1, 4); d = r.range(1, 2); oh = r.range(1, 5); ow = r.range(1, 5); B = r.choice([1, 2, 3])
+    h = r.range(1, 4); w = r.range(1, 4); d = r.range(1, 2); oh = r.range(1, 5); ow = r.range(1, 5); B = bsz(r, [1, 2, 3])
     return f"resize {h} {w} {d} {oh} {ow} {B} | {vec(r, B * h * w * d)} | {vec(r, B * oh * ow * d)}"
 
 
 def gen_rbf(r):
-    nIn = r.range(1, 3); nOut = r.range(1, 3); tc = r.below(2); tw = r.below(2); B = r.choice([1, 2, 3, 4])
+    nIn = r.range(1, 3); nOut = r.range(1, 3); tc = r.below(2); tw = r.below(2); B = bsz(r, [1, 2, 3, 4])
     return (f"rbf {nIn} {nOut} {tc} {tw} {B} | {vec(r, nIn * nOut, -2, 2, 2)} | {vec(r, nOut, -1, 1, 2)} | "
             f"{vec(r, B * nIn, -2, 2, 2)} | {vec(r, B * nOut)}")
 
 
 def gen_kexp(r, exact):
-    nIn = r.range(1, 3); nB = r.range(1, 5); nOut = r.range(1, 3); hb = r.below(2); B = r.choice([1, 2, 3, 4])
+    nIn = r.range(1, 3); nB = r.range(1, 5); nOut = r.range(1, 3); hb = r.below(2); B = bsz(r, [1, 2, 3, 4])
     bb = r.choice([0, 1, 2, nB])
     kern = "linear 0" if exact else f"gauss {dy(r, 1, 8, 3)}"
     return (f"kexp {kern} {nIn} {nB} {nOut} {hb} {bb} {B} | {vec(r, nB * nIn, -2, 2, 1)} | "
@@ -168,7 +213,7 @@ def gen_kexp(r, exact):
 
 
 def gen_ensemble(r, kind, single_output_ok):
-    M = r.range(1, 4); nIn = r.range(1, 3); hb = r.below(2); B = r.choice([1, 2, 3])
+    M = r.range(1, 4); nIn = r.range(1, 3); hb = r.below(2); B = bsz(r, [1, 2, 3])
     nOut = r.range(1, 3) if (kind == "mean" or single_output_ok) else r.range(2, 4)
     np_ = nOut * nIn + (nOut if hb else 0)
     ws = " ".join(dy(r, 1, 4, 2) for _ in range(M))
@@ -178,8 +223,10 @@ def gen_ensemble(r, kind, single_output_ok):
 def gen_conv(r, exact, probe):
     """Conv2DModel: tiny images, 1-2 channels, 1-2 filters, both paddings"""
     act = r.choice(EXACT_ACTS if exact else ["tanh", "logistic"])
-    h = r.range(1, 4); w = r.range(1, 4); c = r.range(1, 2); nf = r.range(1, 2); fh = r.range(1, min(h, 3)); fw = r.range(1, min(w, 3))
-    valid = r.below(2); B = r.choice([1, 2, 3])
+    h = r.range(1, 4); w = r.range(1, 4); c = r.range(1, 2); nf = r.range(1, 2)
+    valid = r.below(2); B = bsz(r, [1, 2, 3])
+    # with zero padding the filter may be larger than the image
+    fh = r.range(1, min(h, 3) if valid else 3); fw = r.range(1, min(w, 3) if valid else 3)
     oh = h - fh + 1 + (0 if valid else fh - 1); ow = w - fw + 1 + (0 if valid else fw - 1)
     npar = nf * fh * fw * c + nf
     return (f"conv {act} {valid} {h} {w} {c} {nf} {fh} {fw} {B} {1 if probe else 0} | {vec(r, npar, -2, 2, 1)} | {vec(r, B * h * w * c, -2, 2, 1)} | "
@@ -187,11 +234,99 @@ def gen_conv(r, exact, probe):
 
 
 def gen_cmac(r):
-    nIn = r.range(1, 2); nOut = r.range(1, 2); tilings = r.choice([1, 2, 4]); tiles = r.choice([2, 3, 5]); B = r.choice([1, 2, 3])
+    nIn = r.range(1, 2); nOut = r.range(1, 2); tilings = r.choice([1, 2, 4]); tiles = r.choice([2, 3, 5]); B = bsz(r, [1, 2, 3])
     lo, up = r.choice([(0, 1), (-1, 1), (0, 2), (-2, 2)])
     npar = tiles ** nIn * tilings * nOut
     xs = " ".join(dy(r, lo, up, 3) for _ in range(B * nIn))
     return f"cmac {nIn} {nOut} {tilings} {tiles} {B} | {lo} {up} | {vec(r, npar, -2, 2, 1)} | {xs} | {vec(r, B * nOut)}"
+
+
+def gen_sparse(r, exact):
+    """LinearModel<CompressedRealVector>: rows with many zeros (also all-zero rows)"""
+    act = r.choice(EXACT_ACTS if exact else ["tanh"])
+    hb = r.below(2); nIn = r.range(1, 5); nOut = r.range(1, 3); B = bsz(r, [1, 2, 3, 5])
+    np_ = nOut * nIn + (nOut if hb else 0)
+    xs = " ".join("0" if r.chance(1, 2) else dy(r, -3, 3, 2) for _ in range(B * nIn))
+    return f"sparse {act} {hb} {nIn} {nOut} {B} | {vec(r, np_)} | {xs} | {vec(r, B * nOut)}"
+
+
+def gen_kclass(r):
+    nIn = r.range(1, 3); nB = r.range(1, 4); nOut = r.range(1, 3); hb = r.below(2); B = bsz(r, [1, 2, 3, 4])
+    fb = r.below(2)
+    return (f"kclass {nIn} {nB} {nOut} {hb} {B} | {vec(r, nB * nIn, -2, 2, fb)} | "
+            f"{vec(r, nB * nOut + (nOut if hb else 0), -2, 2, fb)} | {vec(r, B * nIn, -2, 2, fb)}")
+
+
+def gen_ovo(r):
+    """small integers: many vote ties"""
+    nIn = r.range(1, 2); classes = r.range(1, 4); B = bsz(r, [1, 2, 3, 4])
+    nb = classes * (classes - 1) // 2
+    return f"ovo {nIn} {classes} {B} | {vec(r, nb * (nIn + 1), -2, 2, 0)} | {vec(r, B * nIn, -2, 2, 0)}"
+
+
+def _tree_script(r, nIn, nCls):
+    """random CARTree via createRoot / transformInternalNode / transformLeafNode; thresholds are small integers
+    so that inputs hit them exactly (`<=`)"""
+    open_, n, script = [0], 1, []
+    for _ in range(r.range(0, 4)):
+        nid = open_.pop(r.below(len(open_)))
+        script.append(f"I:{nid}:{r.below(nIn)}:{r.range(-1, 1)}")
+        open_ += [n, n + 1]; n += 2
+    for nid in open_:
+        script.append(f"L:{nid}:{r.below(nCls)}")
+    return " ".join(script)
+
+
+def gen_cart(r, allow_empty):
+    nIn = r.range(1, 3); nCls = r.range(1, 3); B = bsz(r, [1, 2, 3, 4]) if allow_empty else r.choice([1, 2, 3, 4])
+    return f"cart {nIn} {nCls} {B} | {_tree_script(r, nIn, nCls)} | {vec(r, B * nIn, -2, 2, r.below(2))}"
+
+
+def gen_rf(r, allow_empty):
+    nIn = r.range(1, 3); nCls = r.range(2, 3); M = r.range(1, 3); B = bsz(r, [1, 2, 3]) if allow_empty else r.choice([1, 2, 3])
+    ws = " ".join(dy(r, 1, 4, 1) for _ in range(M))
+    return f"rf {nIn} {nCls} {B} | {ws} | " + " | ".join(_tree_script(r, nIn, nCls) for _ in range(M)) + f" | {vec(r, B * nIn, -2, 2, r.below(2))}"
+
+
+def gen_cluster(r):
+    """inputs that coincide with a centroid (distance 0 -> kernel 1e100) and duplicate centroids (ties) included"""
+    nIn = r.range(1, 3); nC = r.range(1, 4); B = bsz(r, [1, 2, 3]); cb = r.choice([1, 2, nC])
+    cen = [[dy(r, -2, 2, 2) for _ in range(nIn)] for _ in range(nC)]
+    if nC > 1 and r.chance(1, 4): cen[-1] = list(cen[0])
+    rows = [list(r.choice(cen)) if r.chance(1, 4) else [dy(r, -2, 2, 2) for _ in range(nIn)] for _ in range(B)]
+    return f"cluster {nIn} {nC} {B} {cb} | {' '.join(' '.join(c) for c in cen)} | {' '.join(' '.join(x) for x in rows)}"
+
+
+def gen_dropout(r):
+    pr = r.choice(["0", "1", "1/1", "1/2", "3/2"]); n = r.range(1, 4); B = bsz(r, [1, 2, 3])
+    xs = " ".join("0" if r.chance(1, 5) else dy(r, -3, 3, 2) for _ in range(B * n))
+    return f"dropout {pr} {n} {B} {r.below(1000)} | {xs} | {vec(r, B * n)}"
+
+
+def gen_nest(r, exact):
+    """nested ConcatenatedModels: groups `[:<opt> ... ]` up to depth 2, optimised or frozen as a whole"""
+    acts = EXACT_ACTS if exact else ACTS
+    B = bsz(r, [1, 2, 3]); nIn = r.range(1, 2)
+    st = {"n": nIn, "npar": 0, "layers": 0, "groups": 0}
+
+    def seq(depth, count):
+        out = []
+        for _ in range(count):
+            x = r.below(10)
+            if depth < 2 and x < 4 and st["layers"] < 5:
+                o = 0 if r.chance(1, 3) else 1
+                st["groups"] += 1
+                out += [f"[:{o}"] + seq(depth + 1, r.range(1, 2)) + ["]"]
+            elif x < 8 or st["layers"] >= 5:
+                act = r.choice(acts); hb = r.below(2); nOut = r.range(1, 2); opt = 0 if r.chance(1, 4) else 1
+                out.append(f"d:{act}:{hb}:{nOut}:{opt}"); st["npar"] += nOut * st["n"] + (nOut if hb else 0); st["n"] = nOut; st["layers"] += 1
+            else:
+                out.append(f"n:{r.choice(acts)}:{r.below(2)}"); st["layers"] += 1
+        return out
+    specs = seq(0, r.range(1, 3))
+    if st["groups"] == 0:
+        specs = ["[:1"] + specs + ["]"]
+    return f"chain {B} {nIn} | {' '.join(specs)} | {vec(r, st['npar'], -2, 2, 1)} | {vec(r, B * nIn, -2, 2, 1)} | {vec(r, B * st['n'], -2, 2, 1)}"
 
 
 # findings of the real code that are modelled *as repaired*; corpus/C04/<file> holds the minimal input
@@ -201,6 +336,8 @@ FINDINGS = {
     "F-C04-3": "ensemble-vote-single-output-overflow",
     "F-C04-4": "conv2d-input-derivative-filter-layout",
     "F-C04-5": "parameterless-layer-gradient-not-resized",
+    "F-C04-6": "kernelexpansion-setstructure-keeps-offset",
+    "F-C04-7": "cartree-eval-empty-batch",
 }
 
 
@@ -263,10 +400,14 @@ def _finding_key(ops, res):
         return "F-C04-5"
     if hd[:1] == ["conv"] and len(hd) == 11 and hd[10] == "1" and "input-derivative-differs-from-finite-differences" in tags:
         return "F-C04-4"
+    if hd[:1] == ["kexp"] and len(hd) == 9 and hd[6] == "0" and res.crash and "probe history 1" in ops and "probe kexp-reconf 0" not in ops:
+        return "F-C04-6"
+    if hd[:1] in (["cart"], ["rf"]) and len(hd) == 4 and hd[3] == "0" and res.crash:
+        return "F-C04-7"
     return None
 
 
-_TWO_TOKEN_KINDS = ("dense", "concat", "rowact", "ensemble", "kexp", "conv")
+_TWO_TOKEN_KINDS = ("dense", "concat", "rowact", "ensemble", "kexp", "conv", "sparse")
 
 
 def _op_kind(o):
@@ -290,7 +431,7 @@ def classify(ops, res):
 
 def run(ctx):
     ctx.trusted += ["correspondence harness harness/c04.cpp + generator checks/c04.py",
-                    "hand-written models Model/Models.lean, Model/Models2.lean (the model headers / sources are modelled, not translated)",
+                    "hand-written models Model/Models.lean, Model/Models2.lean, Model/Models3.lean (the model headers / sources are modelled, not translated)",
                     "Float instance = IEEE binary64 with the platform libm (same tanh/exp as the C++)"]
     ctx.assumptions += ["exact arithmetic in the theorems; rounding enters only through the correspondence",
                         "gradient fields in float mode are compared with relative tolerance 1e-12 (BLAS/FMA summation order)"]
@@ -312,31 +453,75 @@ def run(ctx):
             present.add(fid)
     ctx.cov["findings_present"] = sorted(present)
     r = ctx.rng.fork("c04")
-    per = 200 if ctx.quick else 8000
+    per = 1500 if ctx.quick else 20000
     half = per // 2
     p1, p2, p3, p4 = ("F-C04-1" not in present, "F-C04-2" not in present, "F-C04-3" not in present, "F-C04-4" not in present)
+    p6, p7 = "F-C04-6" not in present, "F-C04-7" not in present
     gs = "probe gradient-size " + ("0" if "F-C04-5" in present else "1")     # parameter-less layers evaluated on their own
-    exact_cases = [["mode rat", gen_dense(r, True)] for _ in range(per)] + [["mode rat", gen_concat(r, True)] for _ in range(per)] + \
-                  [["mode rat", gen_chain(r, True)] for _ in range(per)] + \
-                  [["mode rat", gen_normalizer(r)] for _ in range(half)] + [["mode rat", gen_classifier(r, p1)] for _ in range(per)] + \
-                  [["mode rat", gen_argmax(r)] for _ in range(half)] + [["mode rat", gen_pool(r, p2)] for _ in range(per)] + \
-                  [["mode rat", gen_kexp(r, True)] for _ in range(half)] + [["mode rat", gen_cmac(r)] for _ in range(half)] + \
-                  [["mode rat", gen_conv(r, True, p4)] for _ in range(half)]
-    float_cases = [["mode float", gen_dense(r, False)] for _ in range(per)] + [["mode float", gen_concat(r, False)] for _ in range(per)] + \
-                  [["mode float", gs, gen_rowact(r), GS_ON] for _ in range(per)] + [["mode float", gen_chain(r, False)] for _ in range(2 * per)] + \
-                  [["mode float", gs, gen_resize(r), GS_ON] for _ in range(half)] + [["mode float", gen_rbf(r)] for _ in range(per)] + \
-                  [["mode float", gen_kexp(r, False)] for _ in range(half)] + \
-                  [["mode float", gen_ensemble(r, "mean", True)] for _ in range(half)] + [["mode float", gen_ensemble(r, "vote", p3)] for _ in range(half)] + \
-                  [["mode float", gen_conv(r, False, p4)] for _ in range(half)]
+    kr = "probe kexp-reconf " + ("1" if p6 else "0")
+
+    def hist():
+        """every second case runs on objects with a history: built with another structure, evaluated, re-configured by
+        setStructure; State objects that have recorded another batch; copies / assignments"""
+        return f"probe history {r.below(2)}"
+    exact_cases = [["mode rat", hist(), gen_dense(r, True)] for _ in range(per)] + [["mode rat", hist(), gen_concat(r, True)] for _ in range(per)] + \
+                  [["mode rat", hist(), gen_chain(r, True)] for _ in range(per)] + [["mode rat", hist(), gen_nest(r, True)] for _ in range(half)] + \
+                  [["mode rat", hist(), gen_normalizer(r)] for _ in range(half)] + [["mode rat", hist(), gen_classifier(r, p1)] for _ in range(per)] + \
+                  [["mode rat", gen_argmax(r)] for _ in range(half)] + [["mode rat", hist(), gen_pool(r, p2)] for _ in range(per)] + \
+                  [["mode rat", hist(), kr, gen_kexp(r, True), KR_ON] for _ in range(half)] + [["mode rat", hist(), gen_cmac(r)] for _ in range(half)] + \
+                  [["mode rat", hist(), gen_conv(r, True, p4)] for _ in range(half)] + [["mode rat", hist(), gen_sparse(r, True)] for _ in range(half)] + \
+                  [["mode rat", gen_kclass(r)] for _ in range(half)] + [["mode rat", gen_ovo(r)] for _ in range(half)] + \
+                  [["mode rat", gen_cart(r, p7)] for _ in range(half)]
+    float_cases = [["mode float", hist(), gen_dense(r, False)] for _ in range(per)] + [["mode float", hist(), gen_concat(r, False)] for _ in range(per)] + \
+                  [["mode float", hist(), gs, gen_rowact(r), GS_ON] for _ in range(per)] + [["mode float", hist(), gen_chain(r, False)] for _ in range(2 * per)] + \
+                  [["mode float", hist(), gen_nest(r, False)] for _ in range(half)] + \
+                  [["mode float", hist(), gs, gen_resize(r), GS_ON] for _ in range(half)] + [["mode float", hist(), gen_rbf(r)] for _ in range(per)] + \
+                  [["mode float", hist(), kr, gen_kexp(r, False), KR_ON] for _ in range(half)] + \
+                  [["mode float", hist(), gen_ensemble(r, "mean", True)] for _ in range(half)] + [["mode float", hist(), gen_ensemble(r, "vote", p3)] for _ in range(half)] + \
+                  [["mode float", hist(), gen_conv(r, False, p4)] for _ in range(half)] + [["mode float", hist(), gen_sparse(r, False)] for _ in range(half // 2)] + \
+                  [["mode float", gen_rf(r, p7)] for _ in range(half)] + [["mode float", gen_cluster(r)] for _ in range(half)] + \
+                  [["mode float", gen_dropout(r)] for _ in range(half)]
+    nontrivial = set()
     for c in exact_cases + float_cases:
-        ctx.hist("op_kinds", c[0].split()[1] + ":" + " ".join(_main_op(c).split()[:2]))
+        op = _main_op(c); hd = op.split("|")[0].split(); B = _batch_size(op)
+        ctx.hist("op_kinds", c[0].split()[1] + ":" + " ".join(hd[:2] if hd[0] in _TWO_TOKEN_KINDS else hd[:1]))
+        ctx.hist("batch_size", str(B) if B < 4 else "4+")
+        ctx.hist("object_history", "history" if "probe history 1" in c else "fresh")
+        if hd[0] == "chain":
+            specs = op.split("|")[1].split()
+            ctx.hist("chain_layers", str(sum(1 for t in specs if t[0] in "dnr")))
+            ctx.hist("chain_nesting", "flat" if "]" not in specs else ("depth>=2" if any(specs[i][0] == "[" and specs[i + 1][0] == "[" for i in range(len(specs) - 1)) or _depth(specs) >= 2 else "depth1"))
+            ctx.hist("chain_frozen", "some-frozen" if any(t.endswith(":0") for t in specs if t[0] in "d[") else "all-optimised")
+        if hd[0] == "conv":
+            ctx.hist("conv_shape", ("valid" if hd[2] == "1" else "zeropad") + (":filter>image" if int(hd[7]) > int(hd[3]) or int(hd[8]) > int(hd[4]) else "") +
+                     (":even-filter" if int(hd[7]) % 2 == 0 or int(hd[8]) % 2 == 0 else "") + (":1x1-image" if hd[3] == hd[4] == "1" else ""))
+        if hd[0] == "pool":
+            ctx.hist("pool_ties", "distinct" if hd[7] == "1" else "ties")
+        if hd[0] == "dense" and B > 0:
+            xs = op.split("|")[2].split()
+            ctx.hist("dense_input_magnitude", "all-zero" if all(t == "0" for t in xs) else "2^20" if any(len(t.split("/")[0].lstrip("-")) >= 7 for t in xs)
+                     else "2^-30" if any("/" in t and int(t.split("/")[1]) >= 30 for t in xs) else "unit")
+        if hd[0] in ("dense", "sparse"):
+            ctx.hist("dense_shape", f"in{min(int(hd[3]), 2)}{'+' if int(hd[3]) > 2 else ''}:out{min(int(hd[4]), 2)}{'+' if int(hd[4]) > 2 else ''}")
+        if B >= 2:
+            nontrivial.add(op)
     ctx.cov["evaluations"] = len(exact_cases) + len(float_cases)
-    ctx.cov["distinct_nontrivial"] = len({_main_op(c) for c in exact_cases + float_cases if _batch_size(_main_op(c)) >= 2})
+    ctx.cov["distinct_nontrivial"] = len(nontrivial)
     ctx.sample({"ops": exact_cases[0]}); ctx.sample({"ops": float_cases[-1]})
+    ctx.sample({"ops": next(c for c in exact_cases if "]" in _main_op(c))})
     core.correspond(ctx, "K-C04[exact]", exact_cases, [exe], [drv], classify, env=ENV, max_report=8)
     core.correspond(ctx, "K-C04[float]", float_cases, [exe], [drv], classify, cmp=cmp_tol, env=ENV, max_report=8)
 
 
+def _depth(specs):
+    d = m = 0
+    for t in specs:
+        if t[0] == "[": d += 1; m = max(m, d)
+        elif t == "]": d -= 1
+    return m
+
+
+KR_ON = "probe kexp-reconf 1"
 GS_ON = "probe gradient-size 1"
 
 
@@ -345,7 +530,8 @@ def _main_op(case):
 
 
 _B_POS = {"dense": 5, "concat": 8, "chain": 1, "rowact": 3, "normalizer": 3, "classifier": 5, "pool": 6, "resize": 6, "rbf": 5,
-          "kexp": 8, "ensemble": 6, "cmac": 5, "conv": 9}
+          "kexp": 8, "ensemble": 6, "cmac": 5, "conv": 9, "sparse": 5, "kclass": 5, "ovo": 3, "cart": 3, "rf": 3, "cluster": 3,
+          "dropout": 3}
 
 
 def _batch_size(op):
